@@ -383,6 +383,13 @@ mtbl_fileset_reload_now(struct mtbl_fileset *f)
 		return;
 	}
 
+	/*
+	 * If our merger is from an out of date fileset, it must be rebuilt
+	 * even when this reload finds the setfile unchanged.
+	 */
+	bool stale = (f->fs_last.tv_sec != f->shared_fs->fs_last.tv_sec) ||
+		     (f->fs_last.tv_nsec != f->shared_fs->fs_last.tv_nsec);
+
 #if HAVE_CLOCK_GETTIME
 	static const clockid_t clock = CLOCK_MONOTONIC;
 #else
@@ -394,7 +401,7 @@ mtbl_fileset_reload_now(struct mtbl_fileset *f)
 	f->shared_fs->n_unloaded = 0;
 	assert(f->shared_fs->my_fs != NULL);
 	my_fileset_reload(f->shared_fs->my_fs);
-	if (f->shared_fs->n_loaded > 0 || f->shared_fs->n_unloaded > 0)
+	if (stale || f->shared_fs->n_loaded > 0 || f->shared_fs->n_unloaded > 0)
 		fs_reinit_merger(f);
 	f->shared_fs->fs_last = now;
 	f->fs_last = now;
